@@ -32,6 +32,7 @@ def main():
     if "--src" in a:
         src = a[a.index("--src") + 1]
     run_tests = "--no-tests" not in a
+    ident = a[a.index("--id") + 1] if "--id" in a else k
     diff = os.path.join(src, "patch.diff")
     demo = os.path.join(src, "demo.py")
     metaf = os.path.join(src, "notes.md")
@@ -88,7 +89,7 @@ def main():
     if others:
         print("   also:", ", ".join("%s(exit %s)" % (c, v[0]) for c, v in sorted(others.items())))
     if ok_confirm:
-        dst = os.path.join(ROOT, "seeded", "%s-%s" % (pid, k))
+        dst = os.path.join(ROOT, "seeded", "%s-%s" % (pid, ident))
         os.makedirs(dst, exist_ok=True)
         shutil.copy(diff, os.path.join(dst, "patch.diff"))
         shutil.copy(demo, os.path.join(dst, "demo.py"))
